@@ -258,6 +258,14 @@ pub fn run(cfg: &Config, s: &mut Session, rng: &mut Rng) {
         // (10 + 181*360 + 4 + 2*181), in the first subtable and - through `partial_coverage_size = 6`
         // after a split - in every following one: the split points are 180, 360, 540
         Scenario { name: "fixed:exact-boundary-181x89", firsts: (0..600).map(|i| 2 * i + 7).collect(), sets: (0..600).map(|i| (i + 1, 89)).collect() },
+        // a pair set SHARED with the previous piece sits exactly at a split point: the loop sizes it
+        // against the previous piece's visited set (0 bytes) and clears the set, so the second piece
+        // (A 20002 + C 45482 + D 19602 bytes) is estimated at 65100 bytes
+        Scenario {
+            name: "fixed:shared-pair-set-at-split-point",
+            firsts: (10..28).collect(),
+            sets: [(1u16, 5000u16), (2, 11370)].into_iter().chain((0..14).map(|_| (1, 5000))).chain([(3, 11370), (4, 4900)]).collect(),
+        },
         Scenario { name: "fixed:sparse", firsts: (0..400).map(|i| 3 * i + 1).collect(), sets: (0..400).map(|i| (i + 1, 60)).collect() },
     ];
     for sc in &fixed {
